@@ -16,9 +16,15 @@ import json, os, re, shlex, subprocess, sys, time, glob, hashlib
 
 ROOT = os.path.dirname(os.path.abspath(__file__))
 SPEC = os.path.join(ROOT, "spec")
-OUT = os.path.join(ROOT, "out")
+# The registered commands always decide /repo.  For trying seeded changes without touching /repo (other checks may
+# be running against it), VERIF_REPO names a scratch worktree: the harness is then built against that tree into its
+# own target directory, and output and evidence go to out-<tag>/ instead of out/ and evidence/.
+REPO = os.environ.get("VERIF_REPO", "/repo")
+ALT = "" if REPO == "/repo" else "-" + re.sub(r"[^A-Za-z0-9]", "", os.path.basename(REPO.rstrip("/")))
+OUT = os.path.join(ROOT, "out" + ALT)
+EVID = os.path.join(ROOT, "evidence") if not ALT else os.path.join(OUT, "evidence")
 HARNESS = os.path.join(ROOT, "harness")
-MTV = os.path.join(HARNESS, "target", "release", "mtv")
+MTV = os.path.join(HARNESS, "target" + ALT, "release", "mtv")
 VIOL = os.path.join(OUT, "violations")
 SEED = int(os.environ.get("VERIF_SEED", "20261002"))
 NCPU = os.cpu_count() or 4
@@ -54,6 +60,8 @@ def sh(cmd, timeout=None, env=None, cwd=None, check=False):
 def build_harness(features=None):
     """(re)build the harness against /repo's current working tree"""
     cmd = ["cargo", "build", "--release", "--offline"]
+    if ALT:
+        cmd += ["--config", f'paths=["{REPO}"]', "--target-dir", os.path.join(HARNESS, "target" + ALT)]
     if features is not None:
         cmd += ["--no-default-features", "--features", features]
     t = time.time()
@@ -258,7 +266,7 @@ class Evidence:
             self.extra["further_mismatches_not_kept"] = self.extra.get("further_mismatches_not_kept", 0) + extra_mis
 
     def write(self, nviol):
-        os.makedirs(os.path.join(ROOT, "evidence"), exist_ok=True)
+        os.makedirs(EVID, exist_ok=True)
         cov = {
             "states": self.states, "transitions": self.transitions,
             "traces_validated_against_impl": self.traces,
@@ -270,7 +278,7 @@ class Evidence:
         ev = {"property_id": self.pid, "tier": self.tier, "seed": SEED, "level": self.level,
               "coverage": cov, "assumptions": self.assumptions,
               "wall_s": round(time.time() - self.t0, 1), "violations": nviol}
-        with open(os.path.join(ROOT, "evidence", self.pid + ".json"), "w") as f:
+        with open(os.path.join(EVID, self.pid + ".json"), "w") as f:
             json.dump(ev, f, indent=1)
             f.write("\n")
 
@@ -722,7 +730,7 @@ def monitor_stage(ev):
     d = os.path.join(OUT, f"{ev.pid}-monitor")
     subprocess.run(["rm", "-rf", d])
     os.makedirs(d)
-    p = sh(["cargo", "test", "--offline", "--all-features"], cwd="/repo", timeout=1500,
+    p = sh(["cargo", "test", "--offline", "--all-features"], cwd=REPO, timeout=1500,
            env={"CW_MT_VERIF_TRACE": d, "CARGO_NET_OFFLINE": "true"})
     files = sorted(glob.glob(os.path.join(d, "*.ndjson")))
     if not files:
